@@ -973,8 +973,56 @@ func (w *World) Exec(o *Op) *Obs {
 				NextVersionIdMarker string `xml:"NextVersionIdMarker"`
 			}
 			xml.Unmarshal(r.Body, &lv)
+			if o.Max > 0 && o.Prefix == "/" {
+				// paged listing WITH delimiter "/": every level is paged by following the returned markers, every
+				// common prefix is descended into; all levels together must be the whole listing
+				lv.Versions, lv.Markers, lv.IsTruncated = nil, nil, false
+				var walk func(prefix string, depth int)
+				pagesTotal := 0
+				walk = func(prefix string, depth int) {
+					km, vm := "", ""
+					for {
+						pagesTotal++
+						if pagesTotal > 600 || depth > 12 {
+							obs.Fields = append(obs.Fields, KV{"paging", "does-not-end"})
+							return
+						}
+						q := req
+						q.Query = fmt.Sprintf("versions&delimiter=%%2F&max-keys=%d&prefix=%s", o.Max, gw.EncodeQueryValue(prefix))
+						if km != "" || vm != "" {
+							q.Query += "&key-marker=" + gw.EncodeQueryValue(km) + "&version-id-marker=" + gw.EncodeQueryValue(vm)
+						}
+						pr := gw.Do(w.addr(), q)
+						var pg struct {
+							Versions []ent `xml:"Version"`
+							Markers  []ent `xml:"DeleteMarker"`
+							Prefixes []struct {
+								Prefix string `xml:"Prefix"`
+							} `xml:"CommonPrefixes"`
+							IsTruncated         bool   `xml:"IsTruncated"`
+							NextKeyMarker       string `xml:"NextKeyMarker"`
+							NextVersionIdMarker string `xml:"NextVersionIdMarker"`
+						}
+						if pr.Status != 200 || xml.Unmarshal(pr.Body, &pg) != nil {
+							obs.Fields = append(obs.Fields, KV{"paging", fmt.Sprintf("delimiter-page-status-%d", pr.Status)})
+							return
+						}
+						lv.Versions, lv.Markers = append(lv.Versions, pg.Versions...), append(lv.Markers, pg.Markers...)
+						for _, cp := range pg.Prefixes {
+							if cp.Prefix != prefix {
+								walk(cp.Prefix, depth+1)
+							}
+						}
+						if !pg.IsTruncated {
+							return
+						}
+						km, vm = pg.NextKeyMarker, pg.NextVersionIdMarker
+					}
+				}
+				walk("", 0)
+			}
 			// paged listing (o.Max > 0): follow the markers to the end; the pages together must be the listing
-			for pages := 1; o.Max > 0 && lv.IsTruncated; pages++ {
+			for pages := 1; o.Max > 0 && o.Prefix != "/" && lv.IsTruncated; pages++ {
 				if pages > 400 {
 					obs.Fields = append(obs.Fields, KV{"paging", "does-not-end"})
 					break
